@@ -20,7 +20,7 @@ def place_str(p):
         elif "ix" in e:
             s = "%s[_%d]" % (s, e["ix"])
         elif "ci" in e:
-            s = "%s[%s%s]" % (s, "-" if e["fe"] == "true" else "", e["ci"])
+            s = "%s[%s%s]" % (s, "-" if e["fe"] else "", e["ci"])
         elif "sub" in e:
             s = "%s[%s..%s]" % (s, e["sub"], e["to"])
     return s
